@@ -16,7 +16,7 @@ from abc import ABCMeta, abstractmethod
 import uuid
 
 from stix2.datastore.filters import Filter, FilterSet
-from stix2.utils import deduplicate
+from stix2.utils import deduplicate, parse_into_datetime
 
 
 def make_id():
@@ -483,6 +483,8 @@ class CompositeDataSource(DataSource):
         stix_obj = latest_ver = None
         for obj in all_data:
             ver = obj.get("modified") or obj.get("created")
+            if ver is not None:
+                ver = parse_into_datetime(ver)
 
             if stix_obj is None or ver is None or ver > latest_ver:
                 stix_obj = obj
